@@ -397,6 +397,8 @@ func (in *Interp) builtin(fr *frame, b *ssa.Builtin, cc *ssa.CallCommon, args []
 			}
 		}
 		return r
+	case "ssa:deferstack":
+		return fr
 	case "ssa:wrapnilchk":
 		p, ok := args[0].(Ptr)
 		if ok && p.obj == nil {
